@@ -250,9 +250,13 @@ class Interp(Exec):
             mgrs.append((cm, h))
         try:
             self.exec_block(s.body)
-        except (PyRaise, ReturnSig, BreakSig, ContinueSig):
-            for cm, h in reversed(mgrs):
-                self.with_exit(cm, h)
+        except (PyRaise, ReturnSig, BreakSig, ContinueSig) as sig:
+            self.with_exc = isinstance(sig, PyRaise)     # the block is left by an exception: __exit__ sees it
+            try:
+                for cm, h in reversed(mgrs):
+                    self.with_exit(cm, h)
+            finally:
+                self.with_exc = False
             raise
         else:
             for cm, h in reversed(mgrs):
